@@ -3,6 +3,7 @@ import Knut.Proofs.ImportAccounts
 import Knut.Proofs.ImportBrokers
 import Knut.Proofs.ImportIB
 import Knut.Proofs.ImportFaithful
+import Knut.Proofs.ImportWF
 /-!
 # C13 — importers turn every statement row into a valid, faithful journal entry
 
@@ -28,6 +29,9 @@ must differ from the import account, otherwise a posting pair cancels itself):
   one transaction, on the row's date, with exactly the row's effect on the import account; carried balances and
   prices verbatim; nothing else (same length, pointwise).  Readings of `Faithful`: `C13_count`,
   `C13_booking_row`, `C13_nothing_else`.
+* `C13_<importer>_wellformed` — every emitted directive is `wellFormed`: transactions have at least one booking (a
+  zero-amount row still yields its booking line), all account and commodity names are valid names for knut's parser,
+  whatever the free-text fields contain.
 * `C13_monitor_complete` / `C13_monitor_sound` — the executable predicate the monitor evaluates on the REAL output
   (`faithfulB`) holds of faithful directives, and whenever it holds the directives are, up to the reordering
   `journal.Print` applies, faithful.
@@ -41,8 +45,9 @@ must differ from the import account, otherwise a posting pair cancels itself):
         (∃ f, Syntax.parseText "" (render ds).toUTF8.toList = .ok f) ∧
         JournalPrinter.print (load (printOpens ds ++ render ds)) = printOpens ds ++ render ds
 
-  It needs the print-then-parse lemmas of the parser model (owned by C07/C08) for `journal.Print`'s layout and a
-  proof that every importer's directives are `wellFormed`; neither exists yet.  The clause is decided on every
+  Its hypothesis is proved for every importer (`C13_<importer>_wellformed`); the conclusion needs the print-then-parse
+  lemmas of the parser model (owned by C07/C08) carried over to `journal.Print`'s layout, which do not exist yet
+  (`JournalPrinter.printTx` goes through `String.replace`, about which core Lean proves nothing).  The clause is decided on every
   run on the REAL output by the monitors `output_parses` (knut's parser), `output_parses_lean_parser` (the parser
   model), `directives_wellformed`, `output_accepted` and `output_reprinted_unchanged` (`knut print` on opens +
   output), over free text with quotes, separators, newlines, control characters and Unicode.  The second half is
@@ -112,6 +117,43 @@ balances on the last day of the statement period; every other record ↦ nothing
 theorem C13_interactivebrokers (a : Swissquote.Accts) (ok : AcctsOK a) (recs : List Rec) (ds : List Directive)
     (h : IB.run a recs = .ok ds) : Faithful a.account (interactivebrokers recs) ds :=
   interactivebrokers_faithful a ok recs ds h
+
+/-! ## Every emitted directive is well-formed (the hypothesis of the print-then-parse round trip)
+
+`wellFormed`: a transaction has at least one booking and its postings come in pairs; every account is a valid account
+name (a type and non-empty alphanumeric segments), every commodity (also the `@performance` targets) a non-empty
+alphanumeric name — for the character class of knut's registry **and** parser (`unicode.IsLetter/IsDigit`, regenerated
+tables).  Hypothesis: the flags' accounts are ones the registry accepted (`AccOK`, implied by `accountFlag s = .ok a`:
+`accOK_of_flag`).  Free-text fields do not enter: they only reach descriptions. -/
+
+theorem C13_swisscard2_wellformed (acct : Account) (ha : AccOK acct) (recs : List Rec) (ds : List Directive)
+    (h : Swisscard2.run acct recs = .ok ds) : ∀ d ∈ ds, wellFormed alnum d = true := swisscard2_wf acct ha recs ds h
+theorem C13_swisscard_wellformed (acct : Account) (ha : AccOK acct) (recs : List Rec) (ds : List Directive)
+    (h : Swisscard.run acct recs = .ok ds) : ∀ d ∈ ds, wellFormed alnum d = true := swisscard_wf acct ha recs ds h
+theorem C13_supercard_wellformed (acct : Account) (ha : AccOK acct) (recs : List Rec) (ds : List Directive)
+    (h : Supercard.run acct recs = .ok ds) : ∀ d ∈ ds, wellFormed alnum d = true := supercard_wf acct ha recs ds h
+theorem C13_cumulus_wellformed (acct : Account) (ha : AccOK acct) (recs : List Rec) (ds : List Directive)
+    (h : Cumulus.run acct recs = .ok ds) : ∀ d ∈ ds, wellFormed alnum d = true := cumulus_wf acct ha recs ds h
+theorem C13_postfinance_wellformed (acct : Account) (ha : AccOK acct) (recs : List Rec) (echo : String) (ds : List Directive)
+    (h : Postfinance.run acct recs = .ok (echo, ds)) : ∀ d ∈ ds, wellFormed alnum d = true :=
+  postfinance_wf acct ha recs echo ds h
+theorem C13_revolut2_wellformed (acct fee : Account) (ha : AccOK acct) (hf : AccOK fee) (recs : List Rec) (ds : List Directive)
+    (h : Revolut2.run acct fee recs = .ok ds) : ∀ d ∈ ds, wellFormed alnum d = true := revolut2_wf acct fee ha hf recs ds h
+theorem C13_revolut_wellformed (acct : Account) (ha : AccOK acct) (recs : List Rec) (ds : List Directive)
+    (h : Revolut.run acct recs = .ok ds) : ∀ d ∈ ds, wellFormed alnum d = true := revolut_wf acct ha recs ds h
+theorem C13_wise_wellformed (acct feeAcct trading : Account) (ha : AccOK acct) (hf : AccOK feeAcct) (ht : AccOK trading)
+    (recs : List Rec) (ds : List Directive) (h : Wise.run acct feeAcct trading recs = .ok ds) :
+    ∀ d ∈ ds, wellFormed alnum d = true := wise_wf acct feeAcct trading ha hf ht recs ds h
+theorem C13_viac_wellformed (com : Commodity) (hcom : ComOK com) (fromDay : Int) (es : List (String × String))
+    (ds : List Directive) (h : Viac.run com fromDay es = .ok ds) : ∀ d ∈ ds, wellFormed alnum d = true :=
+  viac_wf com hcom fromDay es ds h
+theorem C13_swissquote_wellformed (a : Swissquote.Accts) (v : AcctsValid a) (recs : List Rec) (ds : List Directive)
+    (h : Swissquote.run a recs = .ok ds) : ∀ d ∈ ds, wellFormed alnum d = true := swissquote_wf a v recs ds h
+theorem C13_interactivebrokers_wellformed (a : Swissquote.Accts) (v : AcctsValid a) (recs : List Rec) (ds : List Directive)
+    (h : IB.run a recs = .ok ds) : ∀ d ∈ ds, wellFormed alnum d = true := interactivebrokers_wf a v recs ds h
+
+/-- the accounts the driver (like the registry) accepts as flags are `AccOK` -/
+theorem C13_flag_accounts_ok (s : String) (a : Account) (h : accountFlag s = .ok a) : AccOK a := accOK_of_flag h
 
 /-! ## What `Faithful` says, clause by clause -/
 
